@@ -236,6 +236,12 @@ def render_program(rng, name, msgs, n_nodes, sendmode):
         for s in m.signals:
             if nodes:
                 s.receivers = sorted(set(rng.sample(nodes, rng.randrange(0, len(nodes) + 1)))) or ["Vector__XXX"]
+    return emit_program(name, nodes, msgs, sendmode != "none")
+
+
+def emit_program(name, nodes, msgs, sendattr, forced_kind="matrix"):
+    """print the DBC text of fully specified messages (id, ext, length, sender, sendtype, receivers set) and the
+    database it denotes"""
     L = ['VERSION ""', "", "NS_ :", "\tCM_", "\tBA_DEF_", "", "BS_:", "", "BU_: " + " ".join(nodes), ""]
     for m in msgs:
         did = m.id | (0x80000000 if m.ext else 0)
@@ -246,10 +252,10 @@ def render_program(rng, name, msgs, n_nodes, sendmode):
                 s.name, muxs, s.start, s.length, 0 if s.be else 1, "-" if s.signed else "+",
                 s.factor, s.offset, s.min, s.max, s.unit, ",".join(s.receivers)))
         L.append("")
-    if sendmode != "none":
+    if sendattr:
         L.append('BA_DEF_ BO_ "GenMsgSendType" ENUM %s;' % ",".join('"%s"' % e for e in SENDTYPE_ENUM))
     L.append('BA_DEF_ SG_ "GenSigStartValue" INT -9223372036854775808 9223372036854775807;')
-    if sendmode != "none":
+    if sendattr:
         L.append('BA_DEF_DEF_ "GenMsgSendType" "None";')
     L.append('BA_DEF_DEF_ "GenSigStartValue" 0;')
     for m in msgs:
@@ -285,8 +291,114 @@ def render_program(rng, name, msgs, n_nodes, sendmode):
     summary = {"messages": len(msgs), "signals": len(sigs), "nodes": len(nodes), "widths": sorted({s.length for s in sigs}),
                "muxed": sum(1 for s in sigs if s.muxed), "float": sum(1 for s in sigs if s.float),
                "scaled": sum(1 for s in sigs if s.factor not in ("1", "1.0", "1e0") or s.offset not in ("0", "0.0", "-0")),
-               "extended": sum(1 for m in msgs if m.ext), "sendtypes": sendmode != "none", "forced": True}
+               "extended": sum(1 for m in msgs if m.ext), "sendtypes": sendattr, "forced": forced_kind}
     return text, D, summary
+
+
+def fixed_signal(name, length, signed, factor="1", offset="0", mn="0", mx="0", vds=(), default=None, float_=False,
+                 start=0, receivers=("Vector__XXX",)):
+    s = S()
+    s.name, s.length, s.signed, s.float = name, length, signed, float_
+    s.be, s.start = False, start
+    s.is_mux, s.muxed, s.muxval = False, False, 0
+    s.unit, s.desc = "", ""
+    s.receivers = list(receivers)
+    s.default = default
+    s.vds = list(vds)
+    s.factor, s.offset, s.min, s.max = factor, offset, mn, mx
+    return s
+
+
+def fixed_message(name, mid, signals, sender="Vector__XXX", sendtype=None, length=8, ext=False):
+    m = S()
+    m.name, m.id, m.ext, m.length, m.sender, m.sendtype, m.signals = name, mid, ext, length, sender, sendtype, list(signals)
+    return m
+
+
+def witness_programs(first_index):
+    """ALWAYS generated, independent of the seed: one witness per clause of the property that the random variants of
+    the matrix could miss.  W0..W3 node wiring (hasSendType gate, collectRx/TxMessages), W4 type/enum/physical boundaries."""
+    out = []
+
+    def add(nodes, msgs, sendattr, kind):
+        name = "p%d" % (first_index + len(out))
+        text, db, summary = emit_program(name, nodes, msgs, sendattr, forced_kind=kind)
+        out.append((name, text, db, summary))
+
+    sig = lambda n, recv, start=0, length=8: fixed_signal(n, length, False, start=start, receivers=recv)
+    # (a) declared nodes only RECEIVE; every message with a send type is sent by Vector__XXX: node code must exist, Tx empty
+    add(["NodeRa", "NodeRb"],
+        [fixed_message("MsgCyc", 0x10, [sig("SigA", ["NodeRa"])], sendtype="Cyclic"),
+         fixed_message("MsgEvt", 0x11, [sig("SigB", ["NodeRa", "NodeRb"])], sendtype="Event"),
+         fixed_message("MsgPlain", 0x12, [sig("SigC", ["NodeRb"])])], True, "wiring-a")
+    # (b) the same with a sender that is not declared in BU_ (in_class43 does not constrain senders)
+    add(["NodeRa", "NodeRb"],
+        [fixed_message("MsgCyc", 0x10, [sig("SigA", ["NodeRb"])], sender="GhostNode", sendtype="Cyclic"),
+         fixed_message("MsgPlain", 0x12, [sig("SigC", ["NodeRa"])], sender="GhostNode")], True, "wiring-b")
+    # (c) NodeS sends only messages without a send type while NodeT's message has one; (d) NodeIdle neither sends nor
+    # receives; (e) MsgShared reaches NodeA and NodeB through the SAME signal, NodeB also through a second signal (once
+    # in Rx), NodeC through a different signal
+    add(["NodeA", "NodeB", "NodeC", "NodeIdle", "NodeS", "NodeT"],
+        [fixed_message("MsgFromS1", 0x20, [sig("SigA", ["NodeA"])], sender="NodeS"),
+         fixed_message("MsgFromS2", 0x21, [sig("SigA", ["Vector__XXX"])], sender="NodeS"),
+         fixed_message("MsgFromT", 0x22, [sig("SigA", ["NodeS"])], sender="NodeT", sendtype="Event"),
+         fixed_message("MsgShared", 0x23, [sig("SigP", ["NodeA", "NodeB"], 0), sig("SigQ", ["NodeB"], 8), sig("SigR", ["NodeC"], 16)],
+                       sender="NodeT", sendtype="Cyclic"),
+         fixed_message("MsgSharedExt", 0x24, [sig("SigP", ["NodeC"], 0), sig("SigQ", ["NodeC", "NodeA"], 8)], sender="NodeA",
+                       sendtype="None", ext=True)], True, "wiring-cde")
+    # (f) the only send type is on a message with ZERO signals (lengths 0 and 8)
+    add(["NodeY", "NodeZ"],
+        [fixed_message("MsgEmpty0", 0x30, [], sender="NodeZ", sendtype="Cyclic", length=0),
+         fixed_message("MsgData", 0x31, [sig("SigA", ["NodeZ"])], sender="NodeY")], True, "wiring-f")
+    add(["NodeY"],
+        [fixed_message("MsgEmpty8", 0x30, [], sender="Vector__XXX", sendtype="Event", length=8),
+         fixed_message("MsgData", 0x31, [sig("SigA", ["NodeY"])], sender="NodeY")], True, "wiring-f2")
+    # type / enum / physical-accessor boundaries, one signal per message
+    B = []
+
+    def one(name, *a, **k):
+        B.append(fixed_message("Msg" + name, 0x100 + len(B), [fixed_signal("Sig" + name, *a, **k)]))
+
+    for L in (8, 16, 32, 52):
+        hi = (1 << L) - 1
+        one("U%dFull" % L, L, False, mn="0", mx=lit(hi))                    # range = representable range: NOT physical
+        one("U%dMaxLess" % L, L, False, mn="0", mx=lit(hi - 1))              # one below: physical
+        one("U%dMinMore" % L, L, False, mn="1", mx=lit(hi))                  # one above at the lower end: physical
+        one("U%dWider" % L, L, False, mn="-1", mx=lit(hi + 1))               # wider than representable: NOT physical
+        lo, shi = -(1 << (L - 1)), (1 << (L - 1)) - 1
+        one("S%dFull" % L, L, True, mn=lit(lo), mx=lit(shi))
+        one("S%dMaxLess" % L, L, True, mn=lit(lo), mx=lit(shi - 1))
+        one("S%dMinMore" % L, L, True, mn=lit(lo + 1), mx=lit(shi))
+    one("U63Full", 63, False, mn="0", mx="9.223372036854776e18")           # float64(2^63-1) = 2^63: NOT physical
+    one("U64Full", 64, False, mn="0", mx="1.8446744073709552e19", default=1000)
+    one("S64Full", 64, True, mn="-9223372036854775808", mx="9223372036854775807", default=1)
+    one("S63Full", 63, True, mn="-4611686018427387904", mx="4611686018427387903", default=-5)
+    one("U12Identity", 12, False)                                           # (1,0) [0|0]: NOT physical
+    one("U12IdentityDot", 12, False, factor="1.0", offset="0.0", mn="0.0", mx="0e0")
+    one("U12Offset", 12, False, offset="5")                                 # identity factor with an offset: physical
+    one("U12OffsetTiny", 12, False, offset="5e-324")
+    one("U12FactorUlp", 12, False, factor="1.0000000000000002")             # factor next to 1: physical
+    one("S12FactorNeg", 12, True, factor="-1")
+    one("U2MaxOnly", 2, False, mn="0", mx="3")                              # smallest multi-bit, full range: NOT physical
+    one("U2Narrow", 2, False, mn="0", mx="2")
+    one("B1Factor", 1, False, factor="2")                                   # 1 bit: never physical (F4)
+    one("B1SignedRange", 1, True, mn="0", mx="1")
+    # enum kinds
+    one("S8EnumNeg", 8, True, vds=[(-128, "Lowest"), (-1, "Minus One"), (0, "Zero"), (127, "Highest")], default=-128)
+    one("S9EnumNeg", 9, True, vds=[(-256, "Lowest 9")])
+    one("U8EnumSingle", 8, False, vds=[(255, "Only")])                      # a single value description still gives an enum type
+    one("U8EnumPhys", 8, False, factor="0.5", vds=[(0, "Off"), (1, "On"), (255, "Not available")])
+    one("B1EnumBoth", 1, False, vds=[(1, "Active"), (0, "Inactive")], default=1)
+    one("B1EnumOne", 1, False, vds=[(1, "Set")])
+    one("B1EnumZero", 1, True, vds=[(0, "Clear")])
+    one("U33Enum", 33, False, vds=[(8589934591, "Top 33")])
+    one("S64Enum", 64, True, vds=[(-9007199254740992, "Low"), (9007199254740992, "High")])
+    one("F32Plain", 32, False, float_=True)
+    one("F32Range", 32, False, float_=True, mn="-1.5", mx="1.5")            # narrower than +-MaxFloat32: physical
+    one("F32Full", 32, False, float_=True, mn="-3.4028234663852886e38", mx="3.4028234663852886e38")
+    one("F32Enum", 32, False, float_=True, vds=[(0, "Zero"), (5, "Five")])   # float32 enum: inside in_class43
+    add(["NodeA"], B, False, "boundaries")
+    return out
 
 
 def forced_programs(seed, first_index, tier):
@@ -328,7 +440,8 @@ class _Programs:
 
     def gen_batch(self, seed, count):
         progs = genprogs.gen_batch(seed, count)
-        return progs + forced_programs(seed, len(progs), self.tier)
+        progs = progs + forced_programs(seed, len(progs), self.tier)
+        return progs + witness_programs(len(progs))
 
 
 class _ReplayPrograms:
@@ -462,7 +575,8 @@ def run(res, replay=None):
             "kinds": stats["kinds"],
             "mismatches": stats["mismatches"],
             "programs": len(progs),
-            "programs_forced_matrix": sum(1 for s in summ if s.get("forced")),
+            "programs_forced_matrix": sum(1 for s in summ if s.get("forced") == "matrix"),
+            "programs_fixed_witnesses": sorted(s["forced"] for s in summ if s.get("forced") not in (None, "matrix")),
             "programs_outside_class": cov["outside_class"],
             "signal_classes": cov["classes"],
             "program_distribution": {
